@@ -126,9 +126,19 @@ func Prepare(repo, verif, scratch string, harnesses []string, logw io.Writer) (*
 	if err := copyGo(filepath.Join(verif, "harness", "hlib"), filepath.Join(scratch, "cmd", "hlib"), rep.ModPath); err != nil {
 		return nil, err
 	}
-	// generated helper in package common (only if the package exists and has the variable)
-	if b, err := os.ReadFile(filepath.Join(scratch, "common", "header.go")); err == nil && bytes.Contains(b, []byte("messageXid")) {
-		gen := "//go:build verif\n\npackage common\n\nimport \"sync/atomic\"\n\n// VerifSetXid resets the process-wide transaction id counter (replay determinism).\nfunc VerifSetXid(v uint32) { atomic.StoreUint32(&messageXid, v) }\n\n// VerifGetXid reads it.\nfunc VerifGetXid() uint32 { return atomic.LoadUint32(&messageXid) }\n"
+	// generated helper in package common: lets a harness start every run from the same value of
+	// the process-wide id counter (replay determinism). Generated for the shapes the counter can
+	// reasonably take; for anything else the helper is a no-op and runs simply continue counting.
+	if b, err := os.ReadFile(filepath.Join(scratch, "common", "header.go")); err == nil {
+		set, get, imp := "", "return 0", ""
+		switch {
+		case bytes.Contains(b, []byte("var messageXid uint32")):
+			imp = "import \"sync/atomic\"\n\n"
+			set, get = "atomic.StoreUint32(&messageXid, v)", "return atomic.LoadUint32(&messageXid)"
+		case bytes.Contains(b, []byte("var messageXid atomic.Uint32")):
+			set, get = "messageXid.Store(v)", "return messageXid.Load()"
+		}
+		gen := "//go:build verif\n\npackage common\n\n" + imp + "// VerifSetXid resets the process-wide transaction id counter (replay determinism).\nfunc VerifSetXid(v uint32) { " + set + " }\n\n// VerifGetXid reads it.\nfunc VerifGetXid() uint32 { " + get + " }\n"
 		os.WriteFile(filepath.Join(scratch, "common", "zz_verif.go"), []byte(gen), 0o644)
 	}
 	res := &Result{Scratch: scratch, ModPath: rep.ModPath, Report: rep, Bins: map[string]string{}}
